@@ -102,6 +102,16 @@ def own_feature(di, w):
     return t + '/' + '+'.join(sorted(features(di, w)))
 
 
+def has_lone_surrogate(w):
+    if isinstance(w, str):
+        return any('\ud800' <= ch <= '\udfff' for ch in w)
+    if isinstance(w, dict):
+        return any(has_lone_surrogate(v) for v in w.values())
+    if isinstance(w, list):
+        return any(has_lone_surrogate(v) for v in w)
+    return False
+
+
 class Monitor:
     def __init__(self, r):
         self.r = r
@@ -134,7 +144,7 @@ class Monitor:
             probe.viol = lambda c, s_, d, f, case, extra='', _p=probe: _p.hits.append((c, s_))
             probe.hits = []
             try:
-                probe.run_case(sdi, sw)
+                probe.run_case(sdi, sw, lone=getattr(self, '_lone', False))
             except Exception:
                 continue
             if (clause, side) in probe.hits:
@@ -143,6 +153,7 @@ class Monitor:
 
     def run_case(self, di, w, lone=False):
         """lone: the value contains a lone surrogate - outside the reference model, only the round trips are judged"""
+        self._lone = lone
         r = self.r
         B = self.B
         feats = features(di, w)
@@ -256,6 +267,61 @@ def _max_scaled(di, w):
     return 0
 
 
+def run_concurrent(mon, r, rng, n):
+    """one datatype object is used by several threads (poller update, read reply, client request): a second thread
+    exports / imports another value exactly before the k-th line the first one executes inside an export_value /
+    import_value method - both must get what they get when they are alone, also on a repeated export afterwards"""
+    from vlib import lineinject
+    import frappy.datatypes as D
+    funcs = []
+    for cls in vars(D).values():
+        if isinstance(cls, type) and issubclass(cls, D.DataType):
+            for name in ('export_value', 'import_value'):
+                f = cls.__dict__.get(name)
+                if f is not None:
+                    funcs.append(f)
+    inj = lineinject.LineInjector(*funcs, name='c02-inject')
+    try:
+        for _ in range(n):
+            di = gen_dt.gen_tree(rng, rng.choice([0, 0, 1, 2]))
+            w1, w2 = (json.loads(json.dumps(gen_dt.complete(di, gen_dt.gen_valid(di, rng), rng))) for _ in range(2))
+            try:
+                ref = mon.B.build(di)
+                v1, v2 = ref(gen_dt.to_py(di, w1)), ref(gen_dt.to_py(di, w2))
+                e1, e2 = ref.export_value(v1), ref.export_value(v2)
+                i1, i2 = ref.import_value(json.loads(json.dumps(e1))), ref.import_value(json.loads(json.dumps(e2)))
+            except Exception:
+                continue
+            dt = mon.B.build(di)
+            for op in ('export', 'import'):
+                k = rng.randint(1, 6)
+                got = {}
+
+                def other(dt=dt, op=op):
+                    got['second'] = dt.export_value(v2) if op == 'export' else dt.import_value(json.loads(json.dumps(e2)))
+                inj.arm(k, other)
+                try:
+                    got['first'] = dt.export_value(v1) if op == 'export' else dt.import_value(json.loads(json.dumps(e1)))
+                except Exception as e:
+                    got['first'] = f'raises {type(e).__name__}'
+                injected = inj.disarm()
+                got['again'] = dt.export_value(v1) if op == 'export' else dt.import_value(json.loads(json.dumps(e1)))
+                r.count('concurrent_uses_checked')
+                if injected:
+                    r.count('concurrent_uses_injected')
+                want1, want2 = (e1, e2) if op == 'export' else (i1, i2)
+                bad = [n_ for n_, g, w_ in (('first', got.get('first'), want1), ('second', got.get('second', want2), want2), ('again', got['again'], want1)) if g != w_]
+                if bad:
+                    tk = own_feature(di, w1).split('/')[0]
+                    r.violation(f'C02/concurrent-{op}-differs/{tk}/{"+".join(bad)}',
+                                f'{op} of two values through one datatype object from two threads: {bad} differ from the single-threaded results',
+                                {'spec': di, 'values': [w1, w2], 'line': k, 'sub': 'concurrent'})
+                    return
+            r.case(('concurrent', gen_dt.tree_shape(di)), True)
+    finally:
+        inj.close()
+
+
 def run_shard(shard):
     r = rec.Recorder(shard)
     rng = random.Random(f'C02/{shard["seed"]}/{shard["idx"]}')
@@ -282,10 +348,14 @@ def run_shard(shard):
                         continue
                     r.count('accepted_values_with_lone_surrogate')
                     mon.run_case(di, ws, lone=True)
+    run_concurrent(mon, r, rng, max(20, shard['n'] // 50))
     return r.result()
 
 
 def replay(case):
     r = rec.Recorder()
-    Monitor(r).run_case(case['spec'], case['value'])
+    if case.get('sub') == 'concurrent':
+        run_concurrent(Monitor(r), r, random.Random(3), 2000)
+        return r.result()
+    Monitor(r).run_case(case['spec'], case['value'], lone=has_lone_surrogate(case['value']))
     return r.result()
